@@ -13,8 +13,18 @@
 //@rule WILDPARAM :: \(self, _: MonotonicTime\) :: (self, _now: MonotonicTime) :: R14 wildcard parameter unsupported by Verus
 //@rule INTOADDR :: address: impl Into<Address<M>> :: address: A :: R14 impl-Trait argument as a named generic
 //@rule GENERICA :: <M, F, T, S>\( :: <M, F, T, S, A: Into<Address<M>>>( :: R14
+//@rule PUBCONST :: ^const  :: pub const  :: R7
+//@rule PUBTUPLE :: \(GlobalScheduler\); :: (pub GlobalScheduler); :: R7
+//@rule INTOADDR2 :: address: impl Into<Address<M>>,\n    \) :: address: A,\n    ) :: R14
+//@rule CHANID :: address\.0\.channel_id\(\) :: address.channel_id() :: R7 tuple-struct field of a stub type
 //@pyrule PUBFIELDS :: pub_fields() :: R7
 //@pyrule RET :: name_ret(res) :: R17
+//@pyrule CTOR0 :: abstract_action_ctor(-) :: R8 (event sources: the broadcast future is dropped, period / key expressions kept)
+//@pyrule ASYNCFUT :: abstract_async_block(fut ;; ()) :: R8
+//@rule BCAST :: let fut = self\.broadcaster\.lock\(\)\.unwrap\(\)\.broadcast\(arg\); :: let fut = (); :: R8 the broadcast future is not expressible in Verus
+//@rule BCLONE :: let broadcaster = self\.broadcaster\.clone\(\); :: let broadcaster = (); :: R8
+//@rule PUBSRC :: ^(\s*)pub struct EventSource<T: Clone \+ Send \+ 'static> \{\n\s*broadcaster: Arc<Mutex<EventBroadcaster<T>>>, :: \1pub struct EventSource<T: Clone + Send + 'static> {\n    pub broadcaster: core::marker::PhantomData<T>, :: R2 the shared broadcaster is not modelled
+//@rule ZEROSUF :: \bmk_(\w+Action)\( :: mk_\g<1>0( :: R8 (the event-source variants of the abstract constructors)
 //@pyrule CTOR :: abstract_action_ctor() :: R8 construction of the async event-sending future dropped; period / key expressions kept
 use vstd::prelude::*;
 use vstd::std_specs::cmp::{PartialOrdSpec, PartialOrdSpecImpl, PartialEqSpec, PartialEqSpecImpl};
@@ -109,6 +119,15 @@ pub struct GlobalScheduler {
     pub scheduler_queue: SchedulerQueue,
     pub time: AtomicTimeReader,
 }
+//@end
+
+
+//@item src=nexosim/src/simulation/scheduler.rs kind=const name=GLOBAL_SCHEDULER_ORIGIN_ID rules=PUBCONST
+pub const GLOBAL_SCHEDULER_ORIGIN_ID: usize = 0;
+//@end
+
+//@item src=nexosim/src/simulation/scheduler.rs kind=struct name=Scheduler rules=PUBSTRUCT,PUBTUPLE
+pub struct Scheduler(pub GlobalScheduler);
 //@end
 
 // the state every scheduling request sees inside its critical section
@@ -438,6 +457,442 @@ impl GlobalScheduler {
         //@]
 
         Ok(event_key)
+    }
+//@end
+
+}
+
+impl Scheduler {
+//@item src=nexosim/src/simulation/scheduler.rs kind=fn name=schedule within=`impl Scheduler` id=Scheduler::schedule rules=MUTSELF,RET
+    pub fn schedule(&mut self, deadline: impl Deadline, action: Action) -> (res: Result<(), SchedulingError>)
+        //@[
+        requires
+            queue_inv(old(self).0.scheduler_queue.view(), old(self).0.time.val()),
+        ensures
+            final(self).0.time.val() == old(self).0.time.val(),
+            res is Err ==> final(self).0.scheduler_queue.view() == old(self).0.scheduler_queue.view(),                                        //@ C08 #rejected-has-no-effect
+            res is Ok ==> deadline.into_time_spec(MonotonicTime { t: old(self).0.time.val() }).t > old(self).0.time.val(),      //@ C08,C01 #deadline-strictly-in-the-future
+            res is Ok ==> action.period() != Some(0nat),                                                       //@ C08 #period-non-zero
+            // requests made through the Scheduler handle carry the global origin                               (C07)
+            res is Ok ==> accepted(old(self).0.scheduler_queue.view(), final(self).0.scheduler_queue.view(), entry_of((deadline.into_time_spec(MonotonicTime { t: old(self).0.time.val() }), GLOBAL_SCHEDULER_ORIGIN_ID), action)),   //@ C07,C08,C01 #queued-with-the-global-origin
+            queue_inv(final(self).0.scheduler_queue.view(), final(self).0.time.val()),
+        //@]
+    {
+        self.0
+            .schedule_from(deadline, action, GLOBAL_SCHEDULER_ORIGIN_ID)
+    }
+//@end
+
+//@item src=nexosim/src/simulation/scheduler.rs kind=fn name=schedule_event within=`impl Scheduler` id=Scheduler::schedule_event rules=MUTSELF,INTOADDR,GENERICA,RET
+    pub fn schedule_event<M, F, T, S, A: Into<Address<M>>>(
+        &mut self,
+        deadline: impl Deadline,
+        func: F,
+        arg: T,
+        address: A,
+    ) -> (res: Result<(), SchedulingError>)
+    where
+        M: Model,
+        F: for<'a> InputFn<'a, M, T, S>,
+        T: Send + Clone + 'static,
+        S: Send + 'static,
+        //@[
+        requires
+            queue_inv(old(self).0.scheduler_queue.view(), old(self).0.time.val()),
+        ensures
+            final(self).0.time.val() == old(self).0.time.val(),
+            res is Err ==> final(self).0.scheduler_queue.view() == old(self).0.scheduler_queue.view(),                                        //@ C08 #rejected-has-no-effect
+            res is Ok ==> deadline.into_time_spec(MonotonicTime { t: old(self).0.time.val() }).t > old(self).0.time.val(),      //@ C08,C01 #deadline-strictly-in-the-future
+            // requests made through the Scheduler handle carry the global origin                               (C07)
+            res is Ok ==> exists|a: Action| #![trigger a.period()] accepted(old(self).0.scheduler_queue.view(), final(self).0.scheduler_queue.view(), entry_of((deadline.into_time_spec(MonotonicTime { t: old(self).0.time.val() }), GLOBAL_SCHEDULER_ORIGIN_ID), a)),   //@ C07,C08,C01 #queued-with-the-global-origin
+            res is Ok ==> exists|a: Action| #![trigger a.period()] a.period() == None::<nat> && accepted(old(self).0.scheduler_queue.view(), final(self).0.scheduler_queue.view(), entry_of((deadline.into_time_spec(MonotonicTime { t: old(self).0.time.val() }), GLOBAL_SCHEDULER_ORIGIN_ID), a)),   //@ C10 #queued-with-the-requested-period
+            queue_inv(final(self).0.scheduler_queue.view(), final(self).0.time.val()),
+        //@]
+    {
+        self.0
+            .schedule_event_from(deadline, func, arg, address, GLOBAL_SCHEDULER_ORIGIN_ID)
+    }
+//@end
+
+//@item src=nexosim/src/simulation/scheduler.rs kind=fn name=schedule_keyed_event within=`impl Scheduler` id=Scheduler::schedule_keyed_event rules=MUTSELF,INTOADDR,GENERICA,RET
+    pub fn schedule_keyed_event<M, F, T, S, A: Into<Address<M>>>(
+        &mut self,
+        deadline: impl Deadline,
+        func: F,
+        arg: T,
+        address: A,
+    ) -> (res: Result<ActionKey, SchedulingError>)
+    where
+        M: Model,
+        F: for<'a> InputFn<'a, M, T, S>,
+        T: Send + Clone + 'static,
+        S: Send + 'static,
+        //@[
+        requires
+            queue_inv(old(self).0.scheduler_queue.view(), old(self).0.time.val()),
+        ensures
+            final(self).0.time.val() == old(self).0.time.val(),
+            res is Err ==> final(self).0.scheduler_queue.view() == old(self).0.scheduler_queue.view(),                                        //@ C08 #rejected-has-no-effect
+            res is Ok ==> deadline.into_time_spec(MonotonicTime { t: old(self).0.time.val() }).t > old(self).0.time.val(),      //@ C08,C01 #deadline-strictly-in-the-future
+            // requests made through the Scheduler handle carry the global origin                               (C07)
+            res is Ok ==> exists|a: Action| #![trigger a.period()] accepted(old(self).0.scheduler_queue.view(), final(self).0.scheduler_queue.view(), entry_of((deadline.into_time_spec(MonotonicTime { t: old(self).0.time.val() }), GLOBAL_SCHEDULER_ORIGIN_ID), a)),   //@ C07,C08,C01 #queued-with-the-global-origin
+            res is Ok ==> exists|a: Action| #![trigger a.period()] a.period() == None::<nat> && accepted(old(self).0.scheduler_queue.view(), final(self).0.scheduler_queue.view(), entry_of((deadline.into_time_spec(MonotonicTime { t: old(self).0.time.val() }), GLOBAL_SCHEDULER_ORIGIN_ID), a)),   //@ C10 #queued-with-the-requested-period
+            res matches Ok(k) ==> exists|a: Action| #![trigger a.period()] a.key_id() == Some(k.id()) && accepted(old(self).0.scheduler_queue.view(), final(self).0.scheduler_queue.view(), entry_of((deadline.into_time_spec(MonotonicTime { t: old(self).0.time.val() }), GLOBAL_SCHEDULER_ORIGIN_ID), a)),   //@ C09 #returned-key-cancels-the-queued-action
+            queue_inv(final(self).0.scheduler_queue.view(), final(self).0.time.val()),
+        //@]
+    {
+        self.0
+            .schedule_keyed_event_from(deadline, func, arg, address, GLOBAL_SCHEDULER_ORIGIN_ID)
+    }
+//@end
+
+//@item src=nexosim/src/simulation/scheduler.rs kind=fn name=schedule_periodic_event within=`impl Scheduler` id=Scheduler::schedule_periodic_event rules=MUTSELF,INTOADDR,GENERICA,RET
+    pub fn schedule_periodic_event<M, F, T, S, A: Into<Address<M>>>(
+        &mut self,
+        deadline: impl Deadline,
+        period: Duration,
+        func: F,
+        arg: T,
+        address: A,
+    ) -> (res: Result<(), SchedulingError>)
+    where
+        M: Model,
+        F: for<'a> InputFn<'a, M, T, S> + Clone,
+        T: Send + Clone + 'static,
+        S: Send + 'static,
+        //@[
+        requires
+            queue_inv(old(self).0.scheduler_queue.view(), old(self).0.time.val()),
+        ensures
+            final(self).0.time.val() == old(self).0.time.val(),
+            res is Err ==> final(self).0.scheduler_queue.view() == old(self).0.scheduler_queue.view(),                                        //@ C08 #rejected-has-no-effect
+            res is Ok ==> deadline.into_time_spec(MonotonicTime { t: old(self).0.time.val() }).t > old(self).0.time.val(),      //@ C08,C01 #deadline-strictly-in-the-future
+            res is Ok ==> dur_ns(period) != 0,                                                                 //@ C08 #period-non-zero
+            // requests made through the Scheduler handle carry the global origin                               (C07)
+            res is Ok ==> exists|a: Action| #![trigger a.period()] accepted(old(self).0.scheduler_queue.view(), final(self).0.scheduler_queue.view(), entry_of((deadline.into_time_spec(MonotonicTime { t: old(self).0.time.val() }), GLOBAL_SCHEDULER_ORIGIN_ID), a)),   //@ C07,C08,C01 #queued-with-the-global-origin
+            res is Ok ==> exists|a: Action| #![trigger a.period()] a.period() == Some(dur_ns(period)) && accepted(old(self).0.scheduler_queue.view(), final(self).0.scheduler_queue.view(), entry_of((deadline.into_time_spec(MonotonicTime { t: old(self).0.time.val() }), GLOBAL_SCHEDULER_ORIGIN_ID), a)),   //@ C10 #queued-with-the-requested-period
+            queue_inv(final(self).0.scheduler_queue.view(), final(self).0.time.val()),
+        //@]
+    {
+        self.0.schedule_periodic_event_from(
+            deadline,
+            period,
+            func,
+            arg,
+            address,
+            GLOBAL_SCHEDULER_ORIGIN_ID,
+        )
+    }
+//@end
+
+//@item src=nexosim/src/simulation/scheduler.rs kind=fn name=schedule_keyed_periodic_event within=`impl Scheduler` id=Scheduler::schedule_keyed_periodic_event rules=MUTSELF,INTOADDR,GENERICA,RET
+    pub fn schedule_keyed_periodic_event<M, F, T, S, A: Into<Address<M>>>(
+        &mut self,
+        deadline: impl Deadline,
+        period: Duration,
+        func: F,
+        arg: T,
+        address: A,
+    ) -> (res: Result<ActionKey, SchedulingError>)
+    where
+        M: Model,
+        F: for<'a> InputFn<'a, M, T, S> + Clone,
+        T: Send + Clone + 'static,
+        S: Send + 'static,
+        //@[
+        requires
+            queue_inv(old(self).0.scheduler_queue.view(), old(self).0.time.val()),
+        ensures
+            final(self).0.time.val() == old(self).0.time.val(),
+            res is Err ==> final(self).0.scheduler_queue.view() == old(self).0.scheduler_queue.view(),                                        //@ C08 #rejected-has-no-effect
+            res is Ok ==> deadline.into_time_spec(MonotonicTime { t: old(self).0.time.val() }).t > old(self).0.time.val(),      //@ C08,C01 #deadline-strictly-in-the-future
+            res is Ok ==> dur_ns(period) != 0,                                                                 //@ C08 #period-non-zero
+            // requests made through the Scheduler handle carry the global origin                               (C07)
+            res is Ok ==> exists|a: Action| #![trigger a.period()] accepted(old(self).0.scheduler_queue.view(), final(self).0.scheduler_queue.view(), entry_of((deadline.into_time_spec(MonotonicTime { t: old(self).0.time.val() }), GLOBAL_SCHEDULER_ORIGIN_ID), a)),   //@ C07,C08,C01 #queued-with-the-global-origin
+            res is Ok ==> exists|a: Action| #![trigger a.period()] a.period() == Some(dur_ns(period)) && accepted(old(self).0.scheduler_queue.view(), final(self).0.scheduler_queue.view(), entry_of((deadline.into_time_spec(MonotonicTime { t: old(self).0.time.val() }), GLOBAL_SCHEDULER_ORIGIN_ID), a)),   //@ C10 #queued-with-the-requested-period
+            res matches Ok(k) ==> exists|a: Action| #![trigger a.period()] a.key_id() == Some(k.id()) && accepted(old(self).0.scheduler_queue.view(), final(self).0.scheduler_queue.view(), entry_of((deadline.into_time_spec(MonotonicTime { t: old(self).0.time.val() }), GLOBAL_SCHEDULER_ORIGIN_ID), a)),   //@ C09 #returned-key-cancels-the-queued-action
+            queue_inv(final(self).0.scheduler_queue.view(), final(self).0.time.val()),
+        //@]
+    {
+        self.0.schedule_keyed_periodic_event_from(
+            deadline,
+            period,
+            func,
+            arg,
+            address,
+            GLOBAL_SCHEDULER_ORIGIN_ID,
+        )
+    }
+//@end
+
+}
+
+// ---------- model contexts: the origin of a self-scheduled event is the model's own channel id ----------
+impl<M: Model> Address<M> {
+    pub uninterp spec fn chan_id(&self) -> usize;
+    // Sender::channel_id: the address of the shared channel state (non-null: different from the global origin 0) - assumption
+    #[verifier::external_body]
+    pub fn channel_id(&self) -> (r: usize) ensures r == self.chan_id(), r != GLOBAL_SCHEDULER_ORIGIN_ID { unimplemented!() }
+}
+impl<'a, M: Model> From<&'a Address<M>> for Address<M> {
+    #[verifier::external_body]
+    fn from(a: &'a Address<M>) -> (r: Address<M>) { unimplemented!() }
+}
+#[verifier::reject_recursive_types(M)]
+//@item src=nexosim/src/model/context.rs kind=struct name=Context rules=PUBSTRUCT,PUBFIELDS
+pub struct Context<M: Model> {
+    pub name: String,
+    pub scheduler: GlobalScheduler,
+    pub address: Address<M>,
+    pub origin_id: usize,
+}
+//@end
+
+impl<M: Model> Context<M> {
+//@item src=nexosim/src/model/context.rs kind=fn name=new within=`impl<M: Model> Context<M>` id=Context::new rules=PUBCRATE,CHANID,RET
+    pub fn new(name: String, scheduler: GlobalScheduler, address: Address<M>) -> (res: Self)
+        //@[
+        ensures
+            // C07: the origin id is specific to the model (its channel id) and different from the global scheduler's
+            res.origin_id == address.chan_id(), res.origin_id != GLOBAL_SCHEDULER_ORIGIN_ID,      //@ C07 #origin-is-the-models-channel
+            res.scheduler == scheduler, res.name == name,
+        //@]
+    {
+        // The only requirement for the origin ID is that it must be (i)
+        // specific to each model and (ii) different from 0 (which is reserved
+        // for the global scheduler). The channel ID of the model mailbox
+        // fulfills this requirement.
+        let origin_id = address.channel_id();
+
+        Self {
+            name,
+            scheduler,
+            address,
+            origin_id,
+        }
+    }
+//@end
+
+//@item src=nexosim/src/model/context.rs kind=fn name=schedule_event within=`impl<M: Model> Context<M>` id=Context::schedule_event rules=MUTSELF,RET
+    pub fn schedule_event<F, T, S>(
+        &mut self,
+        deadline: impl Deadline,
+        func: F,
+        arg: T,
+    ) -> (res: Result<(), SchedulingError>)
+    where
+        F: for<'a> InputFn<'a, M, T, S>,
+        T: Send + Clone + 'static,
+        S: Send + 'static,
+        //@[
+        requires
+            queue_inv(old(self).scheduler.scheduler_queue.view(), old(self).scheduler.time.val()),
+        ensures
+            final(self).scheduler.time.val() == old(self).scheduler.time.val(), final(self).origin_id == old(self).origin_id,
+            res is Err ==> final(self).scheduler.scheduler_queue.view() == old(self).scheduler.scheduler_queue.view(),                                        //@ C08 #rejected-has-no-effect
+            res is Ok ==> deadline.into_time_spec(MonotonicTime { t: old(self).scheduler.time.val() }).t > old(self).scheduler.time.val(),      //@ C08,C01 #deadline-strictly-in-the-future
+            // requests made through a model's context carry that model's origin id                              (C07)
+            res is Ok ==> exists|a: Action| #![trigger a.period()] accepted(old(self).scheduler.scheduler_queue.view(), final(self).scheduler.scheduler_queue.view(), entry_of((deadline.into_time_spec(MonotonicTime { t: old(self).scheduler.time.val() }), old(self).origin_id), a)),   //@ C07,C08,C01 #queued-with-the-models-origin
+            res is Ok ==> exists|a: Action| #![trigger a.period()] a.period() == None::<nat> && accepted(old(self).scheduler.scheduler_queue.view(), final(self).scheduler.scheduler_queue.view(), entry_of((deadline.into_time_spec(MonotonicTime { t: old(self).scheduler.time.val() }), old(self).origin_id), a)),   //@ C10 #queued-with-the-requested-period
+            queue_inv(final(self).scheduler.scheduler_queue.view(), final(self).scheduler.time.val()),
+        //@]
+    {
+        self.scheduler
+            .schedule_event_from(deadline, func, arg, &self.address, self.origin_id)
+    }
+//@end
+
+//@item src=nexosim/src/model/context.rs kind=fn name=schedule_keyed_event within=`impl<M: Model> Context<M>` id=Context::schedule_keyed_event rules=MUTSELF,RET
+    pub fn schedule_keyed_event<F, T, S>(
+        &mut self,
+        deadline: impl Deadline,
+        func: F,
+        arg: T,
+    ) -> (res: Result<ActionKey, SchedulingError>)
+    where
+        F: for<'a> InputFn<'a, M, T, S>,
+        T: Send + Clone + 'static,
+        S: Send + 'static,
+        //@[
+        requires
+            queue_inv(old(self).scheduler.scheduler_queue.view(), old(self).scheduler.time.val()),
+        ensures
+            final(self).scheduler.time.val() == old(self).scheduler.time.val(), final(self).origin_id == old(self).origin_id,
+            res is Err ==> final(self).scheduler.scheduler_queue.view() == old(self).scheduler.scheduler_queue.view(),                                        //@ C08 #rejected-has-no-effect
+            res is Ok ==> deadline.into_time_spec(MonotonicTime { t: old(self).scheduler.time.val() }).t > old(self).scheduler.time.val(),      //@ C08,C01 #deadline-strictly-in-the-future
+            // requests made through a model's context carry that model's origin id                              (C07)
+            res is Ok ==> exists|a: Action| #![trigger a.period()] accepted(old(self).scheduler.scheduler_queue.view(), final(self).scheduler.scheduler_queue.view(), entry_of((deadline.into_time_spec(MonotonicTime { t: old(self).scheduler.time.val() }), old(self).origin_id), a)),   //@ C07,C08,C01 #queued-with-the-models-origin
+            res is Ok ==> exists|a: Action| #![trigger a.period()] a.period() == None::<nat> && accepted(old(self).scheduler.scheduler_queue.view(), final(self).scheduler.scheduler_queue.view(), entry_of((deadline.into_time_spec(MonotonicTime { t: old(self).scheduler.time.val() }), old(self).origin_id), a)),   //@ C10 #queued-with-the-requested-period
+            res matches Ok(k) ==> exists|a: Action| #![trigger a.period()] a.key_id() == Some(k.id()) && accepted(old(self).scheduler.scheduler_queue.view(), final(self).scheduler.scheduler_queue.view(), entry_of((deadline.into_time_spec(MonotonicTime { t: old(self).scheduler.time.val() }), old(self).origin_id), a)),   //@ C09 #returned-key-cancels-the-queued-action
+            queue_inv(final(self).scheduler.scheduler_queue.view(), final(self).scheduler.time.val()),
+        //@]
+    {
+        let event_key = self.scheduler.schedule_keyed_event_from(
+            deadline,
+            func,
+            arg,
+            &self.address,
+            self.origin_id,
+        )?;
+
+        Ok(event_key)
+    }
+//@end
+
+//@item src=nexosim/src/model/context.rs kind=fn name=schedule_periodic_event within=`impl<M: Model> Context<M>` id=Context::schedule_periodic_event rules=MUTSELF,RET
+    pub fn schedule_periodic_event<F, T, S>(
+        &mut self,
+        deadline: impl Deadline,
+        period: Duration,
+        func: F,
+        arg: T,
+    ) -> (res: Result<(), SchedulingError>)
+    where
+        F: for<'a> InputFn<'a, M, T, S> + Clone,
+        T: Send + Clone + 'static,
+        S: Send + 'static,
+        //@[
+        requires
+            queue_inv(old(self).scheduler.scheduler_queue.view(), old(self).scheduler.time.val()),
+        ensures
+            final(self).scheduler.time.val() == old(self).scheduler.time.val(), final(self).origin_id == old(self).origin_id,
+            res is Err ==> final(self).scheduler.scheduler_queue.view() == old(self).scheduler.scheduler_queue.view(),                                        //@ C08 #rejected-has-no-effect
+            res is Ok ==> deadline.into_time_spec(MonotonicTime { t: old(self).scheduler.time.val() }).t > old(self).scheduler.time.val(),      //@ C08,C01 #deadline-strictly-in-the-future
+            res is Ok ==> dur_ns(period) != 0,                                                                 //@ C08 #period-non-zero
+            // requests made through a model's context carry that model's origin id                              (C07)
+            res is Ok ==> exists|a: Action| #![trigger a.period()] accepted(old(self).scheduler.scheduler_queue.view(), final(self).scheduler.scheduler_queue.view(), entry_of((deadline.into_time_spec(MonotonicTime { t: old(self).scheduler.time.val() }), old(self).origin_id), a)),   //@ C07,C08,C01 #queued-with-the-models-origin
+            res is Ok ==> exists|a: Action| #![trigger a.period()] a.period() == Some(dur_ns(period)) && accepted(old(self).scheduler.scheduler_queue.view(), final(self).scheduler.scheduler_queue.view(), entry_of((deadline.into_time_spec(MonotonicTime { t: old(self).scheduler.time.val() }), old(self).origin_id), a)),   //@ C10 #queued-with-the-requested-period
+            queue_inv(final(self).scheduler.scheduler_queue.view(), final(self).scheduler.time.val()),
+        //@]
+    {
+        self.scheduler.schedule_periodic_event_from(
+            deadline,
+            period,
+            func,
+            arg,
+            &self.address,
+            self.origin_id,
+        )
+    }
+//@end
+
+//@item src=nexosim/src/model/context.rs kind=fn name=schedule_keyed_periodic_event within=`impl<M: Model> Context<M>` id=Context::schedule_keyed_periodic_event rules=MUTSELF,RET
+    pub fn schedule_keyed_periodic_event<F, T, S>(
+        &mut self,
+        deadline: impl Deadline,
+        period: Duration,
+        func: F,
+        arg: T,
+    ) -> (res: Result<ActionKey, SchedulingError>)
+    where
+        F: for<'a> InputFn<'a, M, T, S> + Clone,
+        T: Send + Clone + 'static,
+        S: Send + 'static,
+        //@[
+        requires
+            queue_inv(old(self).scheduler.scheduler_queue.view(), old(self).scheduler.time.val()),
+        ensures
+            final(self).scheduler.time.val() == old(self).scheduler.time.val(), final(self).origin_id == old(self).origin_id,
+            res is Err ==> final(self).scheduler.scheduler_queue.view() == old(self).scheduler.scheduler_queue.view(),                                        //@ C08 #rejected-has-no-effect
+            res is Ok ==> deadline.into_time_spec(MonotonicTime { t: old(self).scheduler.time.val() }).t > old(self).scheduler.time.val(),      //@ C08,C01 #deadline-strictly-in-the-future
+            res is Ok ==> dur_ns(period) != 0,                                                                 //@ C08 #period-non-zero
+            // requests made through a model's context carry that model's origin id                              (C07)
+            res is Ok ==> exists|a: Action| #![trigger a.period()] accepted(old(self).scheduler.scheduler_queue.view(), final(self).scheduler.scheduler_queue.view(), entry_of((deadline.into_time_spec(MonotonicTime { t: old(self).scheduler.time.val() }), old(self).origin_id), a)),   //@ C07,C08,C01 #queued-with-the-models-origin
+            res is Ok ==> exists|a: Action| #![trigger a.period()] a.period() == Some(dur_ns(period)) && accepted(old(self).scheduler.scheduler_queue.view(), final(self).scheduler.scheduler_queue.view(), entry_of((deadline.into_time_spec(MonotonicTime { t: old(self).scheduler.time.val() }), old(self).origin_id), a)),   //@ C10 #queued-with-the-requested-period
+            res matches Ok(k) ==> exists|a: Action| #![trigger a.period()] a.key_id() == Some(k.id()) && accepted(old(self).scheduler.scheduler_queue.view(), final(self).scheduler.scheduler_queue.view(), entry_of((deadline.into_time_spec(MonotonicTime { t: old(self).scheduler.time.val() }), old(self).origin_id), a)),   //@ C09 #returned-key-cancels-the-queued-action
+            queue_inv(final(self).scheduler.scheduler_queue.view(), final(self).scheduler.time.val()),
+        //@]
+    {
+        let event_key = self.scheduler.schedule_keyed_periodic_event_from(
+            deadline,
+            period,
+            func,
+            arg,
+            &self.address,
+            self.origin_id,
+        )?;
+
+        Ok(event_key)
+    }
+//@end
+
+}
+
+// ---------- event sources: the actions they build carry exactly the caller's period and the returned key ----------
+#[verifier::external_body]
+fn mk_OnceAction0() -> (a: Action) ensures a.period() is None, a.key_id() is None { unimplemented!() }
+#[verifier::external_body]
+fn mk_KeyedOnceAction0(key: ActionKey) -> (a: Action) ensures a.period() is None, a.key_id() == Some(key.id()) { unimplemented!() }
+#[verifier::external_body]
+fn mk_PeriodicAction0(period: Duration) -> (a: Action) ensures a.period() == Some(dur_ns(period)), a.key_id() is None { unimplemented!() }
+#[verifier::external_body]
+fn mk_KeyedPeriodicAction0(period: Duration, key: ActionKey) -> (a: Action) ensures a.period() == Some(dur_ns(period)), a.key_id() == Some(key.id()) { unimplemented!() }
+
+#[verifier::reject_recursive_types(T)]
+//@item src=nexosim/src/ports/source.rs kind=struct name=EventSource rules=PUBSRC
+pub struct EventSource<T: Clone + Send + 'static> {
+    pub broadcaster: core::marker::PhantomData<T>,
+}
+//@end
+
+impl<T: Clone + Send + 'static> EventSource<T> {
+//@item src=nexosim/src/ports/source.rs kind=fn name=event within=`impl<T: Clone \+ Send \+ 'static> EventSource<T>` id=EventSource::event rules=BCAST,BCLONE,ASYNCFUT,CTOR0,ZEROSUF,RET
+    pub fn event(&mut self, arg: T) -> (res: Action)
+        //@[
+        ensures
+            res.period() is None, res.key_id() is None,                       //@ C10,C09 #one-shot-unkeyed
+        //@]
+    {
+        let fut = ();
+        let fut = ();
+
+        mk_OnceAction0()
+    }
+//@end
+
+//@item src=nexosim/src/ports/source.rs kind=fn name=keyed_event within=`impl<T: Clone \+ Send \+ 'static> EventSource<T>` id=EventSource::keyed_event rules=BCAST,BCLONE,ASYNCFUT,CTOR0,ZEROSUF,RET
+    pub fn keyed_event(&mut self, arg: T) -> (res: (Action, ActionKey))
+        //@[
+        ensures
+            res.0.period() is None, res.0.key_id() == Some(res.1.id()),      //@ C09 #returned-key-cancels-the-action
+        //@]
+    {
+        let action_key = ActionKey::new();
+        let fut = ();
+
+        let action = mk_KeyedOnceAction0(action_key.clone());
+
+        (action, action_key)
+    }
+//@end
+
+//@item src=nexosim/src/ports/source.rs kind=fn name=periodic_event within=`impl<T: Clone \+ Send \+ 'static> EventSource<T>` id=EventSource::periodic_event rules=BCAST,BCLONE,ASYNCFUT,CTOR0,ZEROSUF,RET
+    pub fn periodic_event(&mut self, period: Duration, arg: T) -> (res: Action)
+        //@[
+        ensures
+            res.period() == Some(dur_ns(period)), res.key_id() is None,     //@ C10,C08 #built-with-the-callers-period
+        //@]
+    {
+        let broadcaster = ();
+
+        mk_PeriodicAction0(period)
+    }
+//@end
+
+//@item src=nexosim/src/ports/source.rs kind=fn name=keyed_periodic_event within=`impl<T: Clone \+ Send \+ 'static> EventSource<T>` id=EventSource::keyed_periodic_event rules=BCAST,BCLONE,ASYNCFUT,CTOR0,ZEROSUF,RET
+    pub fn keyed_periodic_event(&mut self, period: Duration, arg: T) -> (res: (Action, ActionKey))
+        //@[
+        ensures
+            res.0.period() == Some(dur_ns(period)),                         //@ C10,C08 #built-with-the-callers-period
+            res.0.key_id() == Some(res.1.id()),                               //@ C09 #returned-key-cancels-the-action
+        //@]
+    {
+        let action_key = ActionKey::new();
+        let broadcaster = ();
+
+        let action = mk_KeyedPeriodicAction0(period, action_key.clone());
+
+        (action, action_key)
     }
 //@end
 
